@@ -18,8 +18,8 @@ TIE = " Tie to /repo: constants regenerated from the source each run; the extrac
 CLAIMS = {
  "C01": C("Coq theorems on the DOPRI5 model (any number type): the solution advances only through steps whose weighted error norm is <= 1, and that norm is built from the user's atol/rtol. The global error bound itself is an analytic consequence and is only measured (closed-form families, tolerance sweeps)." + TIE,
           "Coq proof of the acceptance mechanism + bit-exact correspondence + accuracy experiment", "3/C01", True),
- "C02": C("Order conditions of every rooted tree up to p (and failure at p+1), embedded-estimator orders and row sums are Coq theorems over the tableaux regenerated from the Rust constants on every run, universally quantified over trees via a proved-complete enumeration: RK4 (4), RK23 (3, estimator 2->q=3), DOPRI5 (5, estimator 4->q=5), exact and as rounded to binary64; DOP853 (8; estimators of order 5 and 3; not 9) with the 30-digit decimals handled as scaled integers over the tableau's common denominator (every residual is M/D^|t| with |M| bounded by the certificate: <= gamma*1e-25, <= gamma*1e-13 for the binary64 values). Radau's order and Pade clause are covered by the one-step slope experiment and the bit-exact replay only." + TIE,
-          "Coq proof: rational / scaled-integer order-condition certificates (vm_compute + enumeration completeness) over constants translated from source", "3/C02", True),
+ "C02": C("Order conditions of every rooted tree up to p (and failure at p+1), embedded-estimator orders and row sums are Coq theorems over the tableaux regenerated from the Rust constants on every run, universally quantified over trees via a proved-complete enumeration: RK4 (4), RK23 (3, estimator 2->q=3), DOPRI5 (5, estimator 4->q=5), exact and as rounded to binary64; DOP853 (8; estimators of order 5 and 3; not 9) with the 30-digit decimals handled as scaled integers over the tableau's common denominator (every residual is M/D^|t| with |M| bounded by the certificate: <= gamma*1e-25, <= gamma*1e-13 for the binary64 values); Radau (5, not 6) for the effective matrix Aeff = T Lambda^-1 TI computed from the code's T, TI, U1, ALPH, BETA, whose stage equations on y'=lambda*y are proved (over the reals, every z with Q(z)<>0) to have the unique solution ynew = P(z)/Q(z) y with P, Q within 1e-15 of the (2,3) Pade approximant. That the code's Newton iteration has those stage equations as its fixed point is tied by the bit-exact replay and by single steps of the implementation compared with the Pade value (z down to -1e8), not by a theorem." + TIE,
+          "Coq proof: rational / scaled-integer order-condition certificates (vm_compute + enumeration completeness) over constants translated from source; real-number proof of the stability function", "3/C02", True),
  "C03": C("Coq theorems (real-arithmetic semantics, any kernel/right-hand side/callback, DOPRI5 skeleton): accepted abscissae move strictly toward xend and never pass it, Success implies x = xend, x = xend implies Success or UserInterrupt." + TIE,
           "Coq proof of skeleton invariants over R + bit-exact correspondence", "3/C03", True),
  "C04": C("Coq theorems: on binary64 a NaN error norm fails every comparison and Rust's min/max drop NaN (Floats.FloatAxioms), rejections never enlarge the step (real semantics), a finite budget bounds the number of attempts. Float-level termination with an unlimited budget is not proved: watchdog runs on pathological problems." + TIE,
@@ -42,8 +42,8 @@ CLAIMS = {
           "Coq proof (relational invariant over the skeleton) + bit-exact correspondence", "3/C12", False),
  "C13": C("Coq theorem: a scalar tolerance denotes the same per-component vector as the constant vector (all models read tolerances through it). Reflection/scaling/duplication equivariance are checked by paired bit-exact runs." + TIE,
           "Coq proof (tolerance representation) + paired differential runs", "3/C13", True),
- "C14": C("Tie only in this revision: Radau and BDF (incl. real and complex LU, Newton iterations) are replayed bit for bit on stiff linear/nonlinear problems with rates 1e2..1e10; success, accuracy, step counts and invariants are measured. No stability theorem yet.",
-          "bit-exact correspondence + stiff-problem oracles (no theorem yet: partial)", "3/C14", True),
+ "C14": C("Coq theorem (reals) about the Runge-Kutta matrix Radau effectively applies (Aeff = T Lambda^-1 TI from the regenerated constants): for every z = h*lambda <= 0 the stage equations of y'=lambda*y are uniquely solvable (Q(z) >= 1) and give ynew = R(z) y with |R(z)| <= 1, and |R(z)| <= 100/|z| + 1e-13 for |z| >= 1 -- decaying modes of any rate are damped for every step size. Not theorems: convergence of the simplified Newton iteration, BDF's stability, success/accuracy/step counts on nonlinear problems and invariants -- measured: Radau and BDF (incl. real and complex LU, Newton iterations) are replayed bit for bit on stiff linear/nonlinear problems with rates 1e2..1e10, single Radau steps are compared with the Pade value, and success, accuracy, step counts and invariants are checked on the implementation." + TIE,
+          "Coq proof (stability function of the applied Radau matrix on the negative real axis) + bit-exact correspondence + stiff-problem oracles", "3/C14", True),
  "C15": C("Coq theorems: with no mass matrix the solvers read the identity whatever the mass storage; Full and Banded storage (and wider bands) holding the same entries denote the same matrix to the solvers." + TIE,
           "Coq proof (storage independence of the model's matrix reads) + bit-exact correspondence", "3/C15", True),
  "C16": C("Coq theorems over the reals, for every dimension n and every matrix: if lu_decomp succeeds then lin_solve returns x with A.x = b exactly (Hairer DEC/SOL with deferred row swaps, proved by induction over the elimination steps), every pivot is a column maximum so all stored multipliers have magnitude <= 1, success implies non-zero pivots, an exactly zero pivot column is rejected as singular, shape/pivot-length mismatches are rejected (any number type). Not proved: the floating-point backward-error bound (measured by the exact-rational residual oracle on the implementation); the complex twin is tied by replay and oracle only." + TIE,
